@@ -606,11 +606,13 @@ class Subscription(BaseSubscription):
         if filter_obj.tags:
             for tagname, tags in filter_obj.tags:
                 # the tag name comes from the client, too
-                tagname = tagname.replace("'", "''")
+                # sa.text() reads ":name" as a bind parameter, even inside a literal,
+                # and turns "\\:" into ":": colons are escaped as well as quotes
+                tagname = tagname.replace("'", "''").replace(":", "\\:")
                 pstr = []
                 for val in tags:
                     if val:
-                        val = val.replace("'", "''")
+                        val = val.replace("'", "''").replace(":", "\\:")
                         pstr.append(f"'{val}'")
                 if pstr:
                     pstr = ",".join(pstr)
